@@ -385,6 +385,14 @@ fn r1_to_be_bytes() {
 // ================================================================ C17: textual name API  (BOUNDED harnesses, bounds stated per harness)
 fn alnum(c: u8) -> bool { (48..=57).contains(&c) || (65..=90).contains(&c) || (97..=122).contains(&c) }
 
+// std fact assumed by the Verus prelude (vx.rs: assume_specification [u8::is_ascii_alphanumeric]): complete, all 256 values
+#[kani::proof]
+fn r17_is_ascii_alphanumeric_table() {
+    let c: u8 = kani::any();
+    let want = (48 <= c && c <= 57) || (65 <= c && c <= 90) || (97 <= c && c <= 122);
+    assert!(c.is_ascii_alphanumeric() == want);
+}
+
 // label grammar, all byte strings of length 0..=65 (lengths > 63 take the loop-free early return): BOUNDED by length 65
 #[kani::proof]
 #[kani::unwind(67)]
